@@ -1,0 +1,30 @@
+//go:build verif
+
+package dials
+
+import "reflect"
+
+// This file is only compiled with the "verif" build tag.  It exposes internals to the
+// verification harness in /verif; it is not part of the library's API.
+
+// VerifDeepCopy runs the deep copier used by Config and compose on an arbitrary value.
+func VerifDeepCopy(v reflect.Value) reflect.Value { return deepCopyValue(v) }
+
+// VerifCompose runs compose (defaults copy + one overlay per source value) on values of
+// arbitrary (e.g. reflect.StructOf-built) struct types.  t must be a pointer to a struct;
+// each source value is the (pointerified) struct or a pointer to it.
+func VerifCompose(t interface{}, sourceValues []reflect.Value) (interface{}, error) {
+	svs := make([]sourceValue, len(sourceValues))
+	for i, v := range sourceValues {
+		svs[i] = sourceValue{value: v}
+	}
+	return compose(t, svs)
+}
+
+// VerifOverlay overlays one (pointerified) struct value onto base (settable struct) in place,
+// after deep-copying the overlay value, exactly as compose does for one source.
+func VerifOverlay(base, overlay reflect.Value) error {
+	o := newOverlayer()
+	sv := o.dc.deepCopyValue(overlay)
+	return o.overlayStruct(base, sv)
+}
